@@ -84,6 +84,9 @@ def wire_order_ok(call: ast.Call, w: str, fi: Optional[FuncInfo] = None):
 
 
 def run(ctx: Ctx):
+    from .. import memo as _memo
+
+    ctx.section(_memo.check_memo_keys, ctx, ('qcircuit.',))
     repo = ctx.repo
     for short, has_chain in EXPORTERS.items():
         fi = repo.func(short)
